@@ -19,7 +19,9 @@ PROP = dict(
          'PreserveSolved on/off), PN-squared (a quarter of the PN runs; plus roots within the first plies of the 3x3 games and 4x4/5x5 '
          'positions with default reserves, screened by a run of the solver so that the first-level counter passes pn2Threshold = 1000 and '
          'the second level really starts, with node limits that give second-level limits of every kind: Live, Live^2/MaxNodes, none), '
-         'DFPN (tables of 1..65536 entries, attacker unset / White / Black). Every run is judged by the oracle; the runs whose cost is '
+         'DFPN (tables of 1..65536 entries, attacker unset / White / Black; one solver reused over sequences of positions; and the replayed '
+         'two-call sequences of the repetition/table finding on 3x3 with 3 stones + capstone, judged by a depth-limited exhaustive search to '
+         'the known distance). Every run is judged by the oracle; the runs whose cost is '
          'within the model budget are also replayed by the extracted Coq model (PN-squared runs: Pn2.v, run with Config.Debug = 3 so that '
          'the number of second-level searches, the nodes they created and their limits are part of the comparison; plain PN runs: Pn.v). '
          'non-trivial = the solver made at least one search step; distinct = distinct (root, configuration) strings',
@@ -33,7 +35,7 @@ PROP = dict(
 )
 
 MANIFEST = dict(
-    text="Coq (15 theorems, closed under the global context): truth_equiv / truth_equiv_bounded (a forced win under the third-repetition "
+    text="Coq (33 theorems, closed under the global context): truth_equiv / truth_equiv_bounded (a forced win under the third-repetition "
          "rule = membership in the history-free attractor, any game, with a depth bound and positions identified by Position.Equal); "
          "pn_invariant (every node of every tree the PN search loop of the code-shaped model Pn.v reaches: proof number 0 -> forced win, "
          "disproof number 0 -> not won on its line of play within MaxDepth) and pn_verdict_sound for the entry point pn_run (proven -> "
@@ -47,14 +49,25 @@ MANIFEST = dict(
          "resumption at `current` of Pn2.v / the code are the same computation without PN2; pn2_no_impossible_stop (the two defensive stops "
          "of Pn2.v are dead code); dfpn_proven_sound over the code-shaped model Dfpn.v (thresholds, table with "
          "work-based replacement, killer moves, immediate-threat shortcut, repetition) under explicit hypotheses (no hash collision on the "
-         "positions of the run, C19, a live position has a move), also for a reused solver; dfpn_disproven_sound for runs that met no "
-         "repetition. The extracted models of prove/pn.go and prove/dfpn.go (incl. one solver reused over several positions) are replayed "
+         "positions of the run, C19, a live position has a move), also for a reused solver; dfpn_disproven_sound IN FULL for the solver as "
+         "repaired after the finding reused-solver-wrong-disproven (mid stores its result only when no repetition cut happened below it): "
+         "every `disproven` of a fresh solver, of a solver whose table holds facts, and of every call of a sequence on one reused solver "
+         "(prove_on / prove_seq) is sound, any table size, any fuel, repetitions and table hits included (DfpnRep8.v: the table holds "
+         "unconditional facts, returned bounds are relative to the strict ancestors on the stack - DfpnRep1.CL - and unconditional for "
+         "clean calls); kept from the analysis of the unrepaired solver: sound when Repetition = 0 (fresh) / when Hits is unchanged (any "
+         "table). equal_congruent (positions that Position.Equal identifies have the same value) proved for the positions of one game "
+         "(PnCong1-5: cinv = C01's invariant, <= 64 pieces, reserves = configuration - board, ply counter on the side of the opening the "
+         "board shows; preserved by moves, established by tak.New), hence the two PN corollaries against the attractor without the "
+         "congruence hypothesis for every replay from tak.New; position sets given by representatives up to the ply counter (DfpnRep3) make "
+         "games with slide cycles enumerable inside Coq (DfpnRep4: 657 classes, proven / disproven runs). The extracted models of prove/pn.go and prove/dfpn.go (incl. one solver reused over several positions) are replayed "
          "against Prover.Prove (with and without PN-squared) / DFPNSolver.Prove (verdict and move at L1; proof numbers, depth, all counters "
          "and the trace of the second level at L2), and an independent "
          "retrograde solver of the complete reachable game graph judges every verdict and returned move of PN, PN-squared and DFPN.",
-    ref='5.6', technique='Coq proof (truth = attractor; PN invariant and verdict soundness; DFPN proven / repetition-free disproven soundness, over the code-shaped models) + extracted-model/implementation differential + exact retrograde oracle',
+    ref='5.6', technique='Coq proof (truth = attractor; PN invariant and verdict soundness; DFPN proven and disproven soundness incl. reused solvers, over the code-shaped models) + extracted-model/implementation differential + exact retrograde oracle',
     note="Trusted: Coq kernel, extraction, transcription of prove/pn.go (Pn.v, Pn2.v) and prove/dfpn.go (validated by execution), generators, the "
-         "retrograde oracle (uses the rules engine to enumerate the graph). Not proved: DFPN disproven for runs with repetitions "
-         "(graph-history interaction; hunted by the oracle on the cyclic region of the solved graphs), the move returned by DFPN, "
-         "and the congruence of Position.Equal that links the PN theorem's line-of-play truth to the attractor (the two "
-         "_partial PN corollaries and their two PN-squared twins); the DFPN theorems carry NoCollision / C19 as hypotheses.")
+         "retrograde oracle (uses the rules engine to enumerate the graph). Not proved: the move returned by DFPN; the congruence for "
+         "games with more than 64 pieces (default 7x7, 8x8) and the two PN-squared twins of the PN corollaries (still conditional); the DFPN "
+         "theorems carry NoCollision / C19 as hypotheses. The graph-history interaction of DFPN's repetition handling with its table was a "
+         "real defect (known_findings.json reused-solver-wrong-disproven, repaired by 7a5b6bf); for a FRESH solver no wrong verdict was ever "
+         "observed on Tak (~550k targeted runs) although the unrepaired algorithm is wrong on an abstract 19-node game graph "
+         "(notes/c06_ghi/d4.txt).")
